@@ -349,6 +349,7 @@ def execute(script, run, env):
     judge = run.prop == "C12"
     c15 = run.prop == "C15"
     M = {}      # name -> dict(obj, ra, dec, depth, ncalls, last)
+    del _EARLIER[:]
     HH = {}     # name -> dict(obj HTM, depth, bufs {n: (ra, dec)}, ncalls)
     ncallers = len(set(op.get("c", 0) for op in script["ops"]))
     prev_c = None
@@ -402,7 +403,21 @@ def execute(script, run, env):
         run.nontrivial = True
 
 
+_EARLIER = []      # (name, guard) of arrays handed over in EARLIER calls of the current run (C15)
+
+
 def _guards(run, guards, call):
+    # arrays of earlier calls are still the caller's: a later call must not touch them either
+    for nm, g in _EARLIER:
+        if any(g is g2 for _n, g2 in guards):
+            continue
+        run.checks += 1
+        bad = present.changed(g, None)
+        if bad:
+            run.fail("own.htm", {"call": call, "arg": nm, "present": g["kind"], "when": "earlier call"},
+                     "htm %s modified the %s array (%s) that was handed to an EARLIER call: %s" % (call, nm, g["kind"], bad))
+            return
+    _EARLIER.extend((nm, g) for nm, g in guards if not any(g is g2 for _n, g2 in _EARLIER))
     for nm, g in guards:
         run.checks += 1
         run.nontrivial = True
